@@ -12,6 +12,7 @@ import (
 	"hash/fnv"
 	"os"
 	"path/filepath"
+	"runtime"
 	"sort"
 	"strconv"
 	"strings"
@@ -378,6 +379,77 @@ type Spec[T any] struct {
 	// driver can name the case when the code under test aborts the whole test binary (fatal runtime
 	// errors such as "concurrent map writes" cannot be recovered).
 	TrackCase bool
+	// Watchdog > 0: a case whose execution does not return within this time is examined instead of
+	// waited for until the driver kills the shard: when the executing goroutine sits inside the code under
+	// test, at the same place, in two stack samples taken 5 s apart (parked on a lock = deadlock, or
+	// running = endless loop), the case fails with that place; otherwise it is inconclusive. For checks
+	// whose cases normally take milliseconds (in-process programs); the bound is far above anything load
+	// can explain.
+	Watchdog time.Duration
+}
+
+// watchdog runs f; see Spec.Watchdog.
+func watchdog(d time.Duration, f func() Outcome) Outcome {
+	done := make(chan Outcome, 1)
+	idc := make(chan string, 1)
+	go func() {
+		var b [64]byte
+		n := runtime.Stack(b[:], false)
+		hdr := string(b[:n]) // "goroutine 123 [running]:..."
+		if i := strings.Index(hdr, " ["); i > 0 {
+			hdr = hdr[:i]
+		}
+		idc <- hdr
+		done <- f()
+	}()
+	hdr := <-idc
+	select {
+	case o := <-done:
+		return o
+	case <-time.After(d):
+	}
+	where := func() (state, frame string) {
+		buf := make([]byte, 8<<20)
+		buf = buf[:runtime.Stack(buf, true)]
+		for _, blk := range strings.Split(string(buf), "\n\n") {
+			if !strings.HasPrefix(blk, hdr+" [") {
+				continue
+			}
+			lines := strings.Split(blk, "\n")
+			state = strings.TrimSuffix(strings.TrimPrefix(lines[0], hdr+" ["), "]:")
+			if i := strings.IndexAny(state, ",]"); i > 0 {
+				state = state[:i]
+			}
+			for i := 1; i+1 < len(lines); i += 2 {
+				if strings.Contains(lines[i], "innovationb1ue/RedisGO") || strings.Contains(lines[i], "go.etcd.io/") {
+					return state, strings.TrimSpace(lines[i]) + " " + strings.TrimSpace(strings.SplitN(strings.TrimSpace(lines[i+1]), " ", 2)[0])
+				}
+			}
+			return state, ""
+		}
+		return "", ""
+	}
+	st1, fr1 := where()
+	select {
+	case o := <-done:
+		return o
+	case <-time.After(5 * time.Second):
+	}
+	st2, fr2 := where()
+	if fr1 != "" && fr1 == fr2 {
+		kind := "endless loop or a wait that nothing ends"
+		if strings.Contains(st2, "sync.") || strings.Contains(st2, "semacquire") {
+			kind = "deadlock: parked on a lock"
+		}
+		return Outcome{NonTrivial: true, Fail: fmt.Sprintf("the case did not return within %v: the executing goroutine sits in the code under test at %s (state %q then %q, samples 5 s apart): %s", d+5*time.Second, fr2, st1, st2, kind)}
+	}
+	// not inside the code under test, or moving: slow, not wrong. Give it time, then give up on the case.
+	select {
+	case o := <-done:
+		return o
+	case <-time.After(4 * d):
+		return Outcome{Fail: "infrastructure: a case did not return within " + (5*d + 5*time.Second).String() + " and was not found inside the code under test"}
+	}
 }
 
 // Check runs spec under rapid with the derived seed; a failing case is shrunk by rapid, and the last
@@ -416,7 +488,12 @@ func Check[T any](t *testing.T, spec Spec[T]) {
 				_ = os.WriteFile(filepath.Join(dir, "current-case.json"), w, 0o644)
 			}
 		}
-		o := spec.Exec(c)
+		var o Outcome
+		if spec.Watchdog > 0 {
+			o = watchdog(spec.Watchdog, func() Outcome { return spec.Exec(c) })
+		} else {
+			o = spec.Exec(c)
+		}
 		if strings.HasPrefix(o.Fail, "infrastructure:") {
 			// trouble of the harness's own making (ports, process start-up, ...) is never a violation: the
 			// case is counted as inconclusive and the message is kept for the driver
